@@ -161,7 +161,7 @@ pub fn check_histories(w: &World, weak: bool, stats: &mut HistStats) -> Option<(
         let calls: Vec<Call> = w
             .hist
             .iter()
-            .filter(|c| c.c as usize == ci && (c.completed || matches!(c.kind, CallKind::Swap | CallKind::Cas)))
+            .filter(|c| c.c as usize == ci && (c.completed || matches!(c.kind, CallKind::Swap | CallKind::Cas | CallKind::Rcu)))
             .filter(|c| !matches!(c.kind, CallKind::DropCont))
             .cloned()
             .collect();
